@@ -15,6 +15,7 @@ import (
 	"os/exec"
 	"path/filepath"
 	"runtime/debug"
+	"sort"
 	"strings"
 	"time"
 
@@ -69,7 +70,7 @@ func run(r *core.Run) {
 	w.lim = limits{
 		softStep: core.Pick(r, 2*time.Second, 6*time.Second),
 		fastStep: core.Pick(r, 250*time.Millisecond, 1*time.Second),
-		hardStep: core.Pick(r, 5*time.Second, 15*time.Second),
+		hardStep: core.Pick(r, 4*time.Second, 15*time.Second),
 		softWall: core.Pick(r, 60*time.Second, 120*time.Second),
 		hardWall: core.Pick(r, 120*time.Second, 240*time.Second),
 		softHeap: 2560 << 20,
@@ -205,34 +206,26 @@ func run(r *core.Run) {
 		}
 		return
 	}
-	// This shard's chunks: every ShardN-th chunk, started at a shard specific
-	// rotation so that the shards are not all inside the same (possibly memory
-	// hungry) function at the same moment. The case index announced to core is the
-	// position in this shard's own order (resume points are per shard).
-	shardN := int64(r.ShardN)
-	if shardN < 1 {
-		shardN = 1
-	}
-	var mine []*chunk
-	for _, c := range chunks {
-		if c.seq%shardN == int64(r.ShardIdx) {
-			mine = append(mine, c)
-		}
-	}
-	if len(mine) > 0 {
-		rot := int(int64(len(mine)) * int64(r.ShardIdx) / shardN)
-		mine = append(append([]*chunk{}, mine[rot:]...), mine[:rot]...)
-	}
-	var base int64
-	for _, c := range mine {
-		c.base = base
-		base += c.to - c.from
-	}
-
+	// Work distribution: the shards claim chunks from a shared queue (a counter
+	// file under flock in the run's scratch directory), largest tuple spaces first,
+	// so that a shard that runs into expensive cases (watchdog kills cost seconds)
+	// simply claims fewer chunks. Every claim is appended to a per shard claims file;
+	// a worker that is restarted (by itself after a watchdog kill, or by core after
+	// a crash) re-reads it. The case index announced to core is
+	// (position in this shard's claim list) * chunkSize + offset, which is monotone
+	// in execution order as core's resume logic requires.
+	sort.SliceStable(chunks, func(i, j int) bool { return chunks[i].ts.count > chunks[j].ts.count })
+	q := newQueue(cacheDir, r.ShardIdx, r.ShardN, len(chunks))
 	w.run = newRunaway(w.t.Kills)
 	w.startWatchdog()
 	lastLog := time.Now()
-	for ci, c := range mine {
+	for pos := 0; ; pos++ {
+		ci, ok := q.get(pos)
+		if !ok {
+			break
+		}
+		c := chunks[ci]
+		c.base = int64(pos) * chunkSize
 		if c.base+(c.to-c.from)-1 <= r.Resume {
 			continue
 		}
@@ -251,8 +244,15 @@ func run(r *core.Run) {
 		w.runChunk(c)
 		if time.Since(lastLog) > 10*time.Second {
 			lastLog = time.Now()
-			r.Logf("shard 0: chunk %d/%d (%s) evals=%d", ci, len(mine), c.f.Key, w.t.Evals)
+			r.Logf("shard 0: chunk %d of %d (%s) evals=%d", ci, len(chunks), c.f.Key, w.t.Evals)
 		}
+	}
+	if q.err != "" {
+		r.NotExhaustive("work queue: " + q.err)
+	}
+	if profile {
+		r.Count(fmt.Sprintf("shard_wall_ms:%02d", r.ShardIdx), time.Since(r.Start).Milliseconds())
+		r.Count(fmt.Sprintf("shard_cpu_ms:%02d", r.ShardIdx), int64(cpuTime()/time.Millisecond))
 	}
 	for _, nc := range w.t.NotCallable {
 		name, msg, _ := strings.Cut(nc, ": ")
